@@ -121,12 +121,13 @@ Definition move_destroy_step (j : N) (s : blk * blk * cnt) : blk * blk * cnt :=
   let '(src2, k3) := destroy src1 j k2 in
   (src2, dst1, k3).
 
-(* new(dst + j + off) Type(std::move_if_noexcept(src[j]));   (no destructor call) *)
-Definition move_ctor_step (off : N) (j : N) (s : blk * blk * cnt) : blk * blk * cnt :=
+(* new(dst + j + off) Type(std::move_if_noexcept(src[j])); src[j].~Type(); *)
+Definition move_destroy_off_step (off : N) (j : N) (s : blk * blk * cnt) : blk * blk * cnt :=
   let '(src, dst, k) := s in
   let '(x, src1, k1) := take src j k in
   let '(dst1, k2) := construct dst (j + off) x k1 in
-  (src1, dst1, k2).
+  let '(src2, k3) := destroy src1 j k2 in
+  (src2, dst1, k3).
 
 (* new(dst + j) Type(src[j]); *)
 Definition copy_ctor_step (src : blk) (j : N) (s : blk * cnt) : blk * cnt :=
@@ -251,16 +252,24 @@ Definition c_insert (c : cont) (i : N) (v : Z) (k : cnt) : cont * cnt :=
           let '(a2, k2) := construct a ai v k1 in
           (mkC (Some a2) n1 n1, k2)
       | Some temp =>
-          let '(t1, d1, k1) := iter_up (move_ctor_step 0) (N.to_nat ai) 0 (temp, fresh, k) in
+          let '(t1, d1, k1) := iter_up move_destroy_step (N.to_nat ai) 0 (temp, fresh, k) in
           let '(d2, k2) := construct d1 ai v k1 in
-          let '(_, d3, k3) := iter_up (move_ctor_step 1) (N.to_nat (n1 - 1 - ai)) ai (t1, d2, k2) in
-          (* Free(temp): the moved-from elements of temp are not destructed *)
+          let '(_, d3, k3) := iter_up (move_destroy_off_step 1) (N.to_nat (n1 - 1 - ai)) ai (t1, d2, k2) in
           (mkC (Some d3) n1 n1, k3)
       end
     else
-      let '(a1, k1) := iter_down shift_up_step (N.to_nat (n1 - 1 - ai)) (n1 - 1) (blk_of c, k) in
-      let '(a2, k2) := assign a1 ai v k1 in
-      (upd_blk (mkC (objlist c) n1 (maxo c)) a2, k2).
+      let last := n1 - 1 in
+      if ai =? last then
+        (* appended: the cell behind the last element holds no object yet *)
+        let '(a1, k1) := construct (blk_of c) last v k in
+        (upd_blk (mkC (objlist c) n1 (maxo c)) a1, k1)
+      else
+        (* new(objlist + last) Type(std::move_if_noexcept(objlist[last - 1])) *)
+        let '(x, a0, k0) := take (blk_of c) (last - 1) k in
+        let '(a1, k1) := construct a0 last x k0 in
+        let '(a2, k2) := iter_down shift_up_step (N.to_nat (last - 1 - ai)) (last - 1) (a1, k1) in
+        let '(a3, k3) := assign a2 ai v k2 in
+        (upd_blk (mkC (objlist c) n1 (maxo c)) a3, k3).
 
 (* RemoveObjectAt : Some i = OutOfRangeContainerException(i) *)
 Definition c_remove_at (c : cont) (i : N) (k : cnt) : cont * cnt * option N :=
